@@ -328,7 +328,11 @@ impl GlobalCollector {
         }
 
         for DropCollect { collect_id } in self.drop_collects.drain(..) {
-            self.active_collectors.remove(&collect_id);
+            // Canceling is only meaningful when spans are held back until the root finishes.
+            // Otherwise the trace keeps being reported, so what is parked for it must stay.
+            if self.config.cancelable {
+                self.active_collectors.remove(&collect_id);
+            }
         }
 
         for SubmitSpans {
